@@ -230,8 +230,16 @@ pub fn case(ctx: &Ctx, env: &RealEnv, dir: &std::path::Path, case: u64, seed: u6
         sync_after(&mut w, &proj_before, &inv, &out);
         for &i in &with_rsp {
             if let Some((p, c)) = w.proj.steps[i].rsp.clone() {
-                let shorter: String = c.chars().take((c.chars().count() / 2).max(1)).collect();
-                w.proj.steps[i].rsp = Some((p, shorter));
+                let changed: String = if rng.chance(1, 2) {
+                    c.chars().take((c.chars().count() / 2).max(1)).collect()
+                } else {
+                    // same length, other content
+                    let mut v: Vec<char> = c.chars().collect();
+                    let last = v.len() - 1;
+                    v[last] = if v[last] == 'q' { 'r' } else { 'q' };
+                    v.into_iter().collect()
+                };
+                w.proj.steps[i].rsp = Some((p, changed));
             }
         }
         write_manifest_real(&mut w);
